@@ -149,7 +149,7 @@ Print Assumptions C12_tuple_value_clean.
 
 (* GROUP BY / HAVING: group rows (key columns + `*` holding the members) *)
 Theorem C12_group_by_clean : forall (E : env stmt) s rows out,
-  forallb name_ok (s_group s) = true -> Forall clean rows ->
+  forallb (fun c => name_ok (gk_name c)) (s_group s) = true -> Forall clean rows ->
   exec_group_by E s rows = Ok out -> Forall clean out.
 Proof. exact exec_group_by_clean. Qed.
 Print Assumptions C12_group_by_clean.
